@@ -28,7 +28,8 @@ type execProfile struct {
 
 var (
 	execErrs = []ErrD{sent(0), sent(1), wrap(sent(0)), {K: "TypedP", A: 1, B: 0}, {K: "Open"}, {K: "Timeout"}, {K: "Exceeded", A: 1, Sub: []ErrD{sent(0)}},
-		wrap(join(sent(1), ErrD{K: "TypedP", A: 1, B: 0})), join(sent(2), wrap(sent(0)))}
+		wrap(join(sent(1), ErrD{K: "TypedP", A: 1, B: 0})), join(sent(2), wrap(sent(0))),
+		{K: "TypedP", A: 1, B: typedNilB}, ErrD{K: "TypedP", A: asShimTy, B: 0}}
 )
 
 func genOutcome(r *Rng) OutD {
@@ -178,6 +179,9 @@ func genPolicy(r *Rng, kind string, pos int, g *instGen) PolD {
 		}
 		if r.Chance(25) {
 			p.MaxDuration = int64(1+r.Intn(6))*2048 + 300
+		}
+		if r.Chance(20) {
+			p.PreMax = Pick(r, []string{"unlimited", "unlimited", "attempts", "retries"})
 		}
 		if r.Chance(15) {
 			p.LsnDur = int64(1+r.Intn(5))*1024 + 64 + int64(pos) // a slow OnFailure listener: timers and cancellations land while it runs
@@ -446,6 +450,7 @@ func TestDrive_C01(t *testing.T) {
 const execRule = "Observed per execution: returned result and error, end instant, the ordered log of every listener and of the function's entry and exit (with Attempts/Retries/Executions/LastResult/LastError), breaker state and metrics and cache contents afterwards; compared event by event with the model; the property's own checker is evaluated on the implementation's log. Distinct by (instances, requests)."
 
 func TestDrive_C02(t *testing.T) {
+	driveC07Hedged(t) // Hedge(Retry(Timeout(fn))): the branches of a hedge around a retry policy share its budget (checker budget_ok)
 	pf := execProfile{name: "C02", kinds: []string{"Retry"}, maxDepth: 1, mustHave: "Retry", single: true, extPct: 0, coopPct: 0, maxReqs: 3}
 	driveExec(t, "C02", pf, 500, 15000,
 		"a retry policy as the whole stack: maxRetries -1,0..3 through WithMaxRetries or WithMaxAttempts, random handle and abort conditions, ReturnLastFailure on/off, max duration, fixed delays; scripts of 1-6 outcomes; all eight entry points; then retry policies inside random stacks; nested retry policies whose policy objects another execution goes through while the execution under observation waits out an outer delay. Non-trivial = the function ran more than once or a failure was handled. "+execRule,
@@ -469,6 +474,7 @@ func TestDrive_C02(t *testing.T) {
 }
 
 func TestDrive_C10(t *testing.T) {
+	driveHedgedFallbackProbes(t)
 	pf := execProfile{name: "C10", kinds: []string{"Retry", "Breaker", "Limiter", "Bulkhead", "Timeout", "Fallback", "Cache"}, hedgePct: 20, maxDepth: 4, mustHave: "Fallback", extPct: 10, coopPct: 40, maxReqs: 3}
 	driveExec(t, "C10", pf, 450, 15000,
 		"stacks of depth 1-5 containing at least one fallback (WithResult/WithError/func echoing LastResult/func wrapping LastError) with random handle conditions, around and inside retry, breaker, rate limiter, bulkhead, timeout and cache policies so that the inner outcome ranges over plain results, handled and unhandled errors, ExceededError, ErrOpen, ErrFull, rate-limit and timeout errors; plus executions cancelled (context, deadline, async Cancel) while the function runs and returns a result the fallback handles without an error. Non-trivial = some layer changed the outcome. "+execRule,
@@ -735,6 +741,58 @@ func nestedRetryExhaustedByDuration(rng *Rng, n int, add func(InstD, []ReqD, str
 	}
 }
 
+// a function (or what is inside the cache) that fails with a context error of its own -- a downstream deadline, say -- while the
+// execution itself is not cancelled: an outcome with an error, so it is not stored (unless a CacheIf condition asks for it), and
+// the next execution misses again and runs the function
+func cacheAroundContextErrors(rng *Rng, n int, add func(InstD, []ReqD, string)) {
+	for i := 0; i < n; i++ {
+		g := &instGen{}
+		g.inst.Caches = append(g.inst.Caches, nil)
+		cp := PolD{K: "Cache", Inst: 0, Key: int64(1 + rng.Intn(3))}
+		if rng.Chance(25) {
+			cp.CacheIf = []PredD{{K: "ResGe", Z: 1}}
+		}
+		stack := []PolD{cp}
+		switch rng.Intn(3) {
+		case 0:
+			stack = append(stack, PolD{K: "Retry", MaxRetries: int64(rng.Intn(2)), Handle: []CallD{{K: "Errors", Errs: []ErrD{sent(0)}}}})
+		case 1:
+			stack = append(stack, PolD{K: "Timeout", Limit: 1 << 30})
+		}
+		e := ErrD{K: Pick(rng, []string{"CtxCanceled", "CtxDeadline"})}
+		if rng.Chance(30) {
+			e = wrap(e)
+		}
+		entry := Pick(rng, []string{"Get", "GetWithExecution", "GetAsync", "GetWithExecutionAsync"})
+		reqs := []ReqD{
+			{Stack: stack, CtxKey: -1, Entry: entry, Script: []FnStepD{{Out: OutD{R: 0, Err: &e}, Dur: 512}}},
+			{Stack: stack, CtxKey: -1, Entry: entry, Gap: 1024, Script: []FnStepD{{Out: OutD{R: 5}, Dur: 512}}},
+			{Stack: stack, CtxKey: -1, Entry: entry, Gap: 1024, Script: []FnStepD{{Out: OutD{R: 6}, Dur: 512}}},
+		}
+		add(g.inst, reqs, "cache-around-context-errors")
+	}
+}
+
+// Retry(Timeout(P(fn))) where P waits (an inner retry's delay, a rate limiter's wait) and the Timeout fires during that wait --
+// in the first attempt and in every later one: the wait is cut short each time, the execution does not wait it out
+func timeoutCutsInnerWaitOnLaterAttempts(rng *Rng, n int, add func(InstD, []ReqD, string)) {
+	for i := 0; i < n; i++ {
+		g := &instGen{}
+		limit := int64(2+rng.Intn(4))*1024 + 37
+		var inner PolD
+		if rng.Bool() {
+			inner = PolD{K: "Retry", MaxRetries: 3, Delay: 8*limit + 5}
+		} else {
+			g.inst.Limiters = append(g.inst.Limiters, LimCfg{Smooth: true, ViaRate: true, Interval: 16 * limit, MaxWait: 1 << 40})
+			inner = PolD{K: "Limiter", Inst: 0, MaxWait: 1 << 40}
+		}
+		stack := []PolD{{K: "Retry", MaxRetries: int64(1 + rng.Intn(2)), Delay: Pick(rng, []int64{0, 512})}, {K: "Timeout", Limit: limit}, inner}
+		rq := ReqD{Stack: stack, CtxKey: -1, Entry: Pick(rng, []string{"GetAsync", "RunAsync", "GetWithExecutionAsync", "RunWithExecutionAsync", "Get", "GetWithExecution"}),
+			Script: []FnStepD{{Out: OutD{Err: &ErrD{K: "Sent", A: 0}}, Dur: 128}}}
+		add(g.inst, []ReqD{rq}, "timeout-cuts-inner-wait")
+	}
+}
+
 // verdict plumbing: an inner policy classifies a plain non-error result as a failure and hands it on (retry with
 // ReturnLastFailure, breaker / fallback with a result condition); verdict-sensitive policies sit directly around it
 // (cache, fallback, retry, breaker, timeout), and the same stack runs two or three times on the same instances.
@@ -798,6 +856,7 @@ func TestDrive_C11(t *testing.T) {
 				n = 2000
 			}
 			flagScenarios(rng, n, add)
+			cacheAroundContextErrors(rng, n/2, add)
 		})
 	driveC11Typed(t)
 }
@@ -835,6 +894,7 @@ func limiterWaitScenarios(rng *Rng, n int, add func(InstD, []ReqD, string)) {
 }
 
 func TestDrive_C16(t *testing.T) {
+	driveNestedHedgeProbes(t, "C16p")
 	pf := execProfile{name: "C16", kinds: allKinds, maxDepth: 5, extPct: 10, coopPct: 40, maxReqs: 4, hedgePct: 20}
 	driveExec(t, "C16", pf, 400, 12000, "random stacks and histories as for C01, with every policy listener registered and executor listeners registered in random subsets; plus retry policies around a rate limiter with a max wait time whose granted-after-a-wait attempt is cancelled during the wait (after refused attempts); plus nested retry policies whose inner policy is exhausted by its max duration and re-entered by the outer one. "+execRule,
 		func(w *CaseWriter, rng *Rng, add func(InstD, []ReqD, string)) {
@@ -852,6 +912,8 @@ func TestDrive_C17(t *testing.T) {
 	pf := execProfile{name: "C17", kinds: allKinds, maxDepth: 5, extPct: 10, coopPct: 40, maxReqs: 4, withExec: true, hedgePct: 35}
 	driveExec(t, "C17", pf, 400, 12000, "random stacks and histories as for C01 through the entry points that hand an Execution to the function, so that counters are read inside the function as well as in every listener. "+execRule, nil)
 	driveC17Probes(t)
+	driveHedgedRetryCounterProbes(t)
+	driveNestedHedgeProbes(t, "C17n")
 }
 
 // durations placed around the limits of the timeouts in the stack: far below, just below, just above, far above
@@ -1039,6 +1101,7 @@ func TestDrive_C08(t *testing.T) {
 			cancelledHandledResult(rng, n/5, true, add)
 			slowFallbackCancelled(rng, n/4, add)
 			slowRetryListenerCancelled(rng, n/4, add)
+			timeoutCutsInnerWaitOnLaterAttempts(rng, n/5, add)
 			preCancelled(rng, n/5, false, add)
 			hedgeWinsThenCancelInDelay(rng, n/4, add)
 			// a waiting policy OUTSIDE the retry policy, cancelled in the middle of its wait
